@@ -1,4 +1,4 @@
-INIT PInit
-NEXT PNext
-INVARIANTS ProtoOK
+INIT OInit
+NEXT ONext
+INVARIANTS AbortInvisible CommitAll ReadOwnWrite NoPhantomSend RedeliverySameOrder CommitAfterFailure NoPanic ProtoOK
 CHECK_DEADLOCK FALSE
